@@ -33,7 +33,9 @@ package netconf
 
 //@ func (*XML2sdcpbConfigAdapter).transformRecursive
 //@   props C20
-//@   requires x != nil && x.schemaClient != nil && e != nil && result != nil && tc != nil && pelemsOK(pelems)
+//@   requires tc != nil
+//@   requires x != nil && x.schemaClient != nil && result != nil
+//@   requires e != nil && pelemsOK(pelems)
 
 //@ func (*XML2sdcpbConfigAdapter).transformContainer
 //@   props C20
